@@ -23,6 +23,8 @@ func floors(c *props.Ctx) {
 	c.R.Floor("SIGN-1", 2)
 	c.R.Floor("DEQ-1", 7)
 	c.R.Floor("HALF-1", 1)
+	c.R.Floor("HALF-2", 1)
+	c.R.Floor("SH-COUNT", 1)
 }
 
 const (
